@@ -993,6 +993,23 @@ def check_compose(c):
         b = L.homogeneous_transform(flat(t), x)
         if (a - b).abs().max() > _tol(a, b):
             return (f"C08:as_homogeneous_matrix:map:{o['kind']}", f"{a.tolist()} vs {b.tolist()}")
+        # homogeneous_matrix(t, offset=o): the same map followed by the translation o (vector and scalar offset); the
+        # operand itself is left alone (a copy is returned even for a D x (D+1) operand)
+        for off in (v, torch.tensor(c["v"][0], dtype=torch.float64)):
+            before = t.clone()
+            try:
+                h = L.homogeneous_matrix(t, offset=off)
+            except Exception as e:
+                if o["kind"] in ("trans", "composite") and t.ndim >= 3 and t.shape[-1] == 1:
+                    break    # same limitation as as_homogeneous_matrix above (reported there)
+                return (f"C08:homogeneous_matrix:offset:raises:{o['kind']}", f"{type(e).__name__}: {str(e)[:120]}")
+            a = L.homogeneous_transform(flat(h), x)
+            b = L.homogeneous_transform(flat(t), x) + off
+            if list(h.shape[-2:]) != [d, d + 1] or (a - b).abs().max() > _tol(a, b):
+                return (f"C08:homogeneous_matrix:offset:{o['kind']}",
+                        f"homogeneous_matrix(T, offset=o)(x) = {a.tolist()} but T(x) + o = {b.tolist()}")
+            if not torch.equal(t, before):
+                return (f"C08:homogeneous_matrix:offset:writes-operand:{o['kind']}", "the operand was modified")
     return None
 
 
@@ -1252,7 +1269,8 @@ def check_txrt(c):
 ORACLES = [
     Oracle("compose", gen_compose, check_compose,
            doc="composite applied = one after the other (points and vectors), vectors ignore translation, "
-               "as_homogeneous_matrix / hmm keep the map; 9 form pairs x batch shapes x D, n-ary"),
+               "as_homogeneous_matrix / hmm keep the map, homogeneous_matrix(T, offset=o) = T followed by o; 9 form pairs x "
+               "batch shapes x D, n-ary"),
     Oracle("transform_batch", gen_tbatch, check_tbatch,
            doc="homogeneous_transform batch semantics against plain matrix arithmetic: N transforms x points "
                "(D,), (M,D), (1,M,D), (N,M,D), (N,2,2,D); points and vectors"),
